@@ -23,6 +23,9 @@ ASSUMPTIONS = [
 ErrA = type('Error', (Exception,), {'__module__': 'pkg_a'})
 ErrB = type('Error', (Exception,), {'__module__': 'pkg_b'})
 LEAVES = [LookupError, KeyError, IndexError, ValueError, RuntimeError, ErrA, ErrB]
+# the roots of the hierarchy as listed types: Exception covers every leaf but NOT a nested Concurrent (which derives from
+# BaseException directly; BaseException itself may not be listed - usage assertion)
+ROOTS = [Exception]
 BARE = 'BARE'
 
 
@@ -31,7 +34,7 @@ def C(types, inclusive=False):
 
 
 CHILD_KINDS = LEAVES + [C([KeyError]), C([KeyError, ValueError])]
-HANDLER_TYPES = LEAVES + [C([KeyError]), C([LookupError]), C([KeyError], True), BARE]      # (bare Concurrent as a listed type)
+HANDLER_TYPES = LEAVES + [C([KeyError]), C([LookupError]), C([KeyError], True), BARE] + ROOTS     # (bare Concurrent as a listed type)
 
 
 def ref_sub(c, s):
@@ -49,7 +52,7 @@ def ref_sub(c, s):
             return False
         return incl or all(any(ref_sub(cc, ss) for ss in S) for cc in Cs)
     if isinstance(c, tuple) or c == BARE:
-        return False
+        return issubclass(Concurrent, s)        # a nested failure is matched by a plain listed type iff Concurrent derives from it
     return issubclass(c, s)
 
 
@@ -289,6 +292,40 @@ def identity_checks():
         want = [leaves[i] for i in order]
         if len(got) != len(want) or any(a is not b for a, b in zip(got, want)):
             msgs.append('flattened() of a failure that contains the same nested failure twice gives %r, expected %r' % (got, want))
+    # leaves that only look like containers / nothing: flattened() must treat everything that is not a Concurrent as a leaf
+    class Agg(Exception):
+        children = (ValueError('inner'),)
+
+        def flattened(self):
+            return ValueError('not me')
+
+        def __iter__(self):
+            return iter(self.children)
+
+    class Falsy(Exception):
+        def __bool__(self):
+            return False
+
+        def __len__(self):
+            return 0
+
+    class EqAll(Exception):
+        def __eq__(self, other):
+            return True
+
+        def __hash__(self):
+            return 7
+    odd = [Agg('agg'), Falsy(), EqAll('e1'), EqAll('e2'), Agg('agg2')]
+    for shape, order in (([odd[0], leaves[0]], [0, 'k0']), ([[odd[0], odd[1]], odd[2]], [0, 1, 2]), ([odd[2], [odd[3], odd[1]]], [2, 3, 1]),
+                         ([odd[0], odd[4]], [0, 4]), ([odd[1]], [1]), ([[odd[1]], [odd[2], odd[3]]], [1, 2, 3]), ([odd[2], odd[3]], [2, 3])):
+        flat = build(shape).flattened()
+        got = list(flat.children)
+        want = [leaves[0] if i == 'k0' else odd[i] for i in order]
+        if len(got) != len(want) or any(a is not b for a, b in zip(got, want)):
+            msgs.append('flattened() of a failure whose leaves define children / __iter__ / __bool__ / __eq__ gives %r, expected the '
+                        'leaves %r' % (got, want))
+        if not isinstance(flat, Concurrent) or type(flat) is not type(Concurrent(*want)):
+            msgs.append('flattened() of %r is of type %r, not the class of its leaves' % (shape, type(flat)))
     for shape, order in shapes:
         flat = build(shape).flattened()
         got = list(flat.children)
